@@ -102,4 +102,29 @@ def opEnc (args : List String) (impl : String) : Verdict :=
         | _ => if impl = "err" then l2 label "impl add_field/encode failed, model succeeds" else bad "enc: impl format"
   | _ => bad "enc: arity"
 
+/-- `enci <fields>`: every field is offered to `add_field`; refused ones (out of order / duplicate) are skipped by the
+    caller; then the message is encoded.  impl: `ok <enc> <framed> <size> <pad> rejected=<k>` -/
+def opEncIgnoring (args : List String) (impl : String) : Verdict :=
+  match args with
+  | [fs] =>
+    match parseFields fs with
+    | none => bad "enci: bad fields"
+    | some fl =>
+      let m : Msg := fl.foldl (fun m f => (m.addField f.1 f.2).getD m) Msg.empty
+      let modelStr := "ok " ++ hexOrDash (encode m) ++ " " ++ hexOrDash (encodeFramed m) ++ " " ++
+        toString (encodedSize m) ++ " " ++ toString (paddingLength m)
+      let aligned := m.values.all (fun v => v.length % 4 == 0)
+      let label := "enci:n=" ++ toString m.numFields ++ (if aligned then ":aligned" else ":unaligned")
+      match impl.splitOn " " with
+      | ["ok", eh, fh, sz, pd, _] =>
+        match unhex eh, unhex fh with
+        | some eb, some fb =>
+          let rt := if aligned then (Spec.decode eb == some m) else true
+          if ¬ rt then l1 label "C05: after a refused add_field the encoding does not decode (reference decoder) to the fields that were accepted"
+          else if fb ≠ framing ++ le32 eb.length ++ eb then l1 label "C05: framing is not magic+len+payload"
+          else if "ok " ++ eh ++ " " ++ fh ++ " " ++ sz ++ " " ++ pd = modelStr then ok label else l2 label ("model=" ++ modelStr.take 300)
+        | _, _ => bad "enci: impl hex"
+      | _ => if impl = "err" then l2 label "impl encode failed, model succeeds" else if impl = "panic" then l1 label "C05,C06: encode panicked after a refused add_field" else bad "enci: impl format"
+  | _ => bad "enci: arity"
+
 end Rough.Driver
